@@ -226,7 +226,7 @@ def fused_pair(insig, out):
     for i in range(len(insig) - 1):
         a, b = insig[i], insig[i + 1]
         try:
-            got = [t.text for t in reflex.significant(reflex.lex(a.text + b.text))]
+            got = [t.text for t in reflex.significant(reflex.lex(a.text + b.text, numeral_concat=False))]
             if got != [a.text, b.text] and (a.text + b.text) in out:
                 return '%s|%s' % (c08_cls(a), c08_cls(b))
         except reflex.Reject:
